@@ -180,7 +180,7 @@ def build_world():
 
 
 # --------------------------------------------------------------------------- concrete side
-PATHS = ['/', '/a', '/a/b', '/a/bc', '/a/b/c', '/a/b/cd', '/x']
+PATHS = ['/', '/a', '/a/b', '/a/bc', '/a/b/c', '/a/b/cd', '/a/bc/d', '/x']
 
 
 def py_desc(p, q):
@@ -317,7 +317,7 @@ def replay(function, clause, model):
 def run_bounded(tier, seed):
     n, failures = bounded(tier, seed)
     return {'tool': 'export/unexport history enumeration against a reference model (real DBusObjectHandler, fake connection); after every step GetManagedObjects, Introspect and UnknownObject answers at 9 paths incl. prefix-sharing siblings',
-            'bound': 'all export sets of size <= %d over 7 paths; %d random add/remove histories of length 2..9' % (3 if tier == 'thorough' else 2, 3000 if tier == 'thorough' else 60),
+            'bound': 'all export sets of size <= %d over 8 paths; %d random add/remove histories of length 2..9' % (3 if tier == 'thorough' else 2, 3000 if tier == 'thorough' else 60),
             'evaluations': n, 'failures': failures}
 
 
